@@ -252,6 +252,21 @@ pub fn systematic(thorough: bool, seed: u64) -> Vec<Vec<Op>> {
             seqs.push(s);
             i += 1;
         }
+        // byte slices from THIS (possibly unaligned) cursor: lengths around the storage word (8 bytes)
+        // and its multiples, so that a slice crosses none / one / several word boundaries
+        let lens: Vec<usize> = if thorough {
+            (0..=41).collect()
+        } else {
+            let all = [0usize, 1, 2, 3, 6, 7, 8, 9, 10, 14, 15, 16, 17, 18, 23, 24, 25, 31, 32, 33, 40, 41];
+            (0..6).map(|k| all[(off * 5 + k * 4) % all.len()]).collect()
+        };
+        for blen in lens {
+            let mut s = pre.clone();
+            s.push(Op::Bytes { b: (0..blen).map(|k| (0x81 + 37 * k) as u8).collect() });
+            s.extend(follow(i));
+            seqs.push(s);
+            i += 1;
+        }
     }
     seqs
 }
@@ -277,7 +292,7 @@ pub fn random_sequences(count: usize, len: usize, seed: u64) -> Vec<Vec<Op>> {
                             if rng.gen_bool(0.5) {
                                 Op::Align
                             } else {
-                                Op::Bytes { b: (0..rng.gen_range(0..4)).map(|_| rng.gen()).collect() }
+                                Op::Bytes { b: (0..[rng.gen_range(0..4), rng.gen_range(0..40)][rng.gen_range(0..2)]).map(|_| rng.gen()).collect() }
                             }
                         }
                     }
